@@ -45,6 +45,23 @@ def gen_query(rng, V, facts, extra=None):
             return "%s %s^-%d" % (mag(rng)[0], e["word"], rng.randint(1, 3))
         fs = V.rand_factors(rng, nmax=3)
         return "%s %s" % (mag(rng)[0], G.text(fs, rng))
+    if r < 0.03:
+        # results whose exact rendering is a LONG line (500 to 3000 digits: long literals, powers, reciprocals of them) with no unit, a
+        # unit with a numerator, or a denominator-only unit: fixed-size line buffers and their fallback paths (seed C19-g)
+        nd = rng.choice([500, 1000, 1020, 1024, 1030, 1100, 2048, 3000])
+        form = rng.randint(0, 3)
+        if form == 0:
+            num = "".join(rng.choice("123456789") for _ in range(nd))
+        elif form == 1:
+            b = rng.choice([3, 7, 11, 13])
+            num = "%d ^ %d" % (b, int(nd / len(str(b ** 100)) * 100))
+        elif form == 2:
+            num = "1 / " + "".join(rng.choice("123456789") for _ in range(nd))
+        else:
+            num = "".join(rng.choice("123456789") for _ in range(nd // 2)) + " / " + "".join(rng.choice("1379") for _ in range(nd // 2))
+        e = V.pick(rng)
+        unit = rng.choice(["", " * 1 %s" % e["word"], " * 1 %s^-1" % e["word"], " * 1 %s^-2" % e["word"], " / 1 %s" % e["word"], " * 1 m/s", " / (1 s * 1 %s)" % e["word"]])
+        return "(%s)%s" % (num, unit) if unit else num
     if r < 0.25:
         return value()
     if r < 0.5:
@@ -130,6 +147,19 @@ def shard(p):
         for _ in range(p["n"]):
             q = gen_query(rng, V, p["facts"], {"vocab": p["vocab"], "corpus": p["corpus"]} if p.get("vocab") else None)
             exact_mode = rng.random() < 0.5
+            # the query as several shell arguments (the binary joins them with one space): the query IS the joined text
+            argv_q = [q]
+            if rng.random() < 0.25 and " " in q.strip():
+                parts = [x for x in q.split(" ")]
+                cut = sorted(rng.sample(range(1, len(parts)), min(len(parts) - 1, rng.randint(1, 3))))
+                argv_q, last = [], 0
+                for c in cut + [len(parts)]:
+                    argv_q.append(" ".join(parts[last:c]))
+                    last = c
+                if any(a.startswith("-") for a in argv_q):
+                    argv_q = [q]
+                else:
+                    acc.count("invocations_with_the_query_split_over_several_arguments")
             rep = d.call({"op": "query", "q": q, "full": True, "render": True})
             if "panic" in rep or "items" not in rep:
                 acc.count("library_panic_or_no_items")   # C11's business; the CLI comparison needs library results
@@ -139,7 +169,17 @@ def shard(p):
                 acc.count("library_display_panic")
                 continue
             want, judged = expected_stdout(items, exact_mode)
-            args = [p["any"]] + (["--exact"] if exact_mode else []) + ["--", q]
+            flags = ["--exact"] if exact_mode else []
+            extra_flag = None
+            xr = rng.random()
+            if xr < 0.10:
+                extra_flag = "--describe"       # the result lines stay what they are; a description section may follow
+            elif xr < 0.15:
+                extra_flag = "--syntax"         # the syntax tree is dumped first; the result lines follow unchanged
+            if extra_flag:
+                flags = flags + [extra_flag] if rng.random() < 0.5 else [extra_flag] + flags
+                acc.count("invocations_with_" + extra_flag)
+            args = [p["any"]] + flags + ["--"] + argv_q
             env_run = env
             if rng.random() < 0.12:
                 env_run = dict(env, RUST_LOG=rng.choice(["trace", "anything=trace", "debug"]))      # logging must not change what is printed on stdout
@@ -172,6 +212,10 @@ def shard(p):
             if r.returncode != 0:
                 acc.violate("c19:exit-status", "`any%s -- %r` exited with %d: %s" % (" --exact" if exact_mode else "", q, r.returncode, case["stderr"][-200:]), case)
                 continue
+            if extra_flag == "--describe" and got.startswith(want) and (got == want or got[len(want):].startswith("# Description of constants used")):
+                got = want
+            elif extra_flag == "--syntax" and got.endswith(want) and (want or got):
+                got = want
             if got != want:
                 # classify
                 gl, wl = got.split("\n"), want.split("\n")
